@@ -33,7 +33,8 @@ def run(ctx):
     from ..shared import snapshot_rule as _snapshot_rule
 
     ctx.attempt(_snapshot_rule, ctx, "R19.12", scope=lambda ci: ci.module.name.startswith(("EasyFEA.Models", "EasyFEA.Simulations")))
-    ctx.attempt(multiplier_column_rule, ctx)
+    # (R19.11, the multiplier column of __Jacobian compared with the residual rows as opaque polynomials of the SOURCE TEXT, fired on
+    # `np.add(zOld, du)`; retired: R19.22 decides every column of J, the multiplier column included, on the interpreted functions.)
     ctx.attempt(flow_step_rule, ctx)
     ctx.attempt(spectral_dispatch_rule, ctx)
     ctx.attempt(plane_stress_linearity_rule, ctx)
